@@ -137,7 +137,36 @@ def main():
         idx = r.open_index()
         idx[b"staged"] = IndexEntry((0, 0), (0, 0), 0, 0, 0o100644, 0, 0, len(b.data), b.id)
         idx.write()
-    SETUP = [op_commit_main, op_commit_side, op_pack_loose, op_dup_pack, op_tag, op_delete_side, op_main_back, op_detach, op_dangling, op_stage]
+    def op_octopus(r):
+        # a merge with three parents; the third one is kept alive by the merge only
+        h = head_of(r, b"refs/heads/main")
+        if h is None:
+            return
+        tips = [new_commit(r, [h], b"topic%d" % i) for i in range(3)]
+        r.refs[b"refs/heads/main"] = new_commit(r, tips, b"octopus")
+
+    def op_age_everything(r):
+        # everything written so far becomes 30 days old (packs, indexes, loose objects)
+        old_t = time.time() - 30 * 86400
+        objdir = os.path.join(r.path, ".git", "objects")
+        for dp, _dns, fns in os.walk(objdir):
+            for fn in fns:
+                os.utime(os.path.join(dp, fn), (old_t, old_t))
+        AGED[0] = set(r.object_store)
+
+    def op_readd_dangling(r):
+        # an unreachable object that already exists (possibly packed, possibly old) is written again: its loose copy is fresh
+        b = Blob.from_string(b"dangling, written twice\n")
+        first = b.id not in r.object_store
+        r.object_store.add_object(b)
+        if first:
+            r.object_store.pack_loose_objects()
+            op_age_everything(r)
+            r.object_store.add_object(Blob.from_string(b"dangling, written twice\n"))
+        YOUNG.add(b.id)
+    AGED = [set()]
+    YOUNG = set()
+    SETUP = [op_commit_main, op_commit_side, op_pack_loose, op_dup_pack, op_tag, op_delete_side, op_main_back, op_detach, op_dangling, op_stage, op_octopus, op_age_everything, op_readd_dangling]
 
     # ---- maintenance operations: (name, function, may_remove_unreachable)
     def m_pack_loose(r):
@@ -167,7 +196,7 @@ def main():
         r.object_store.write_commit_graph()
         G.garbage_collect(r, grace_period=0)
     MAINT = [("pack_loose_objects", m_pack_loose, False), ("repack", m_repack, False), ("gc grace=0", m_gc0, True), ("gc grace=None", m_gc_none, True),
-             ("gc default grace", m_gc_default, False), ("prune_unreachable grace=0", m_prune0, True), ("pack_refs", m_pack_refs, False), ("midx+commit-graph then gc grace=0", m_accel_gc, True)]
+             ("gc default grace", m_gc_default, True), ("prune_unreachable grace=0", m_prune0, True), ("pack_refs", m_pack_refs, False), ("midx+commit-graph then gc grace=0", m_accel_gc, True)]
 
     def children(o):
         if isinstance(o, Commit):
@@ -211,8 +240,15 @@ def main():
                 r = Repo.init(p)
                 what = {"setup": [SETUP[i].__name__[3:] for i in seq], "maintenance": mname}
                 try:
+                    AGED[0] = set()
+                    YOUNG.clear()
                     for i in seq:
                         SETUP[i](r)
+                        if SETUP[i] is not op_age_everything and SETUP[i] is not op_readd_dangling:
+                            pass
+                    aged = set(AGED[0])
+                    # objects (re)written after the ageing step are young again
+                    young = set(YOUNG) | {x for x in r.object_store if x not in aged}
                     allobj, reach, idx_roots, refs = snapshot(r)
                     try:
                         mfn(r)
@@ -232,7 +268,12 @@ def main():
                             if dict(rr.refs.as_dict()) != refs:
                                 fail("ref values changed", dict(what, view=view))
                             gone = [x for x in allobj if x not in st]
-                            if gone and not may_remove:
+                            if mname in ("gc default grace",):
+                                # default grace (two weeks): only unreachable objects whose every copy is older may go
+                                protected = [x for x in gone if x not in aged or x in young]
+                                if protected:
+                                    fail("an object younger than the grace period disappeared", dict(what, view=view, count=len(protected), types=[allobj[x][0] for x in protected][:4]))
+                            elif gone and not may_remove:
                                 fail("objects disappeared although nothing may be removed (grace period / operation)", dict(what, view=view, count=len(gone)))
                             # (objects referenced only by the index are not "reachable from any ref or HEAD": C10 as stated does not
                             #  protect them; dulwich gc with grace 0 / None does prune them, unlike C git - noted in DESIGN.md, not a violation)
